@@ -1,0 +1,51 @@
+//go:build verif
+// +build verif
+
+// Verification hook H3 (add-only, compiled only with -tags verif): exports the VRF
+// qualification rule of the proposer/verifier so that an external harness can call it with
+// chosen stake / totalStake / height inputs. No behaviour of existing code paths changes.
+package logical
+
+import (
+	"math/big"
+	"time"
+
+	"com.tuntun.rangers/node/src/consensus/model"
+	"com.tuntun.rangers/node/src/consensus/vrf"
+	"com.tuntun.rangers/node/src/middleware/types"
+)
+
+// VerifValidateProve is validateProve: (qualified, qn) for a proof at a height.
+func VerifValidateProve(prove vrf.VRFProve, height, workingMiners, totalStake uint64) (bool, uint64) {
+	return validateProve(prove, height, workingMiners, totalStake)
+}
+
+// VerifCalQn is calQn on copies of its arguments (calQn clamps stakeRatio in place).
+func VerifCalQn(vrfValueRatio, stakeRatio *big.Rat) uint64 {
+	return calQn(new(big.Rat).Set(vrfValueRatio), new(big.Rat).Set(stakeRatio))
+}
+
+// VerifCalcStakeRatio is calcStakeRatio.
+func VerifCalcStakeRatio(difficulty, totalStake uint64) *big.Rat {
+	return calcStakeRatio(difficulty, totalStake)
+}
+
+// VerifCalcVrfValueRatio is calcVrfValueRatio.
+func VerifCalcVrfValueRatio(prove vrf.VRFProve) *big.Rat { return calcVrfValueRatio(prove) }
+
+// VerifTryZeroPadding is the left-padding applied by validateProve.
+func VerifTryZeroPadding(pi vrf.VRFProve) vrf.VRFProve { return tryZeroPadding(pi) }
+
+// VerifGenVrfMsg is genVrfMsg.
+func VerifGenVrfMsg(random []byte, delta int) []byte { return genVrfMsg(random, delta) }
+
+// VerifVerifyBlockVRF is the verifier-side check of a received header.
+func VerifVerifyBlockVRF(bh *types.BlockHeader, preBH *types.BlockHeader, castor *model.MinerInfo, totalStake uint64) (bool, error) {
+	return verifyBlockVRF(bh, preBH, castor, totalStake)
+}
+
+// VerifGenProve is the proposer-side vrfWorker.genProve.
+func VerifGenProve(miner *model.SelfMinerInfo, baseBH *types.BlockHeader, castHeight uint64, castTime time.Time, totalStake uint64) (vrf.VRFProve, uint64, error) {
+	w := newVRFWorker(miner, baseBH, castHeight, castTime.Add(time.Hour))
+	return w.genProve(castTime, totalStake)
+}
